@@ -413,6 +413,12 @@ def e2b_all_slots(F, R, M, lfield):
         S = sg.sym
         live = sg.live_nodes()
         for a in device_accesses(sg, M):
+            if a.kind == 'load' and a.node in live and (a.area.startswith('avail') or a.area.startswith('desc')):
+                # completions come from the used ring only: what the driver itself wrote into the available ring /
+                # descriptor table says nothing about what the device has finished (and the device may have altered it)
+                R.violated('E2', '%s:%s:completion-source' % (b['id'], a.area), site(sg, a.node),
+                           'the queue reads %s back from driver-written, device-visible memory: a completion must be taken from the used ring '
+                           '(with out-of-order completion the available ring names a chain the device has not finished)' % a.area)
             if a.kind != 'load' or not a.area.startswith('used.ring') or a.node not in live:
                 continue
             n += 1
